@@ -59,7 +59,7 @@ static void check_peel(int n, const EL &es) {
         if (seenE != origE) why = why.empty() ? "edge set not preserved" : why;
         set<id_type> allN; for (auto &p : count) allN.insert(p.first);
         if (allN != origN) why = why.empty() ? "node set not preserved" : why;
-    } catch (std::exception &e) { ctx.library_abort(std::string("exception: ") + e.what(), desc); return; } catch (vpsc::CriticalFailure &f) { ctx.library_abort(f.what(), desc); return; }
+    } catch (std::exception &e) { ctx.library_abort(std::string("exception: ") + e.what(), desc); ctx.violation("peel_failed", {}, desc, std::string("exception: ") + e.what()); return; } catch (vpsc::CriticalFailure &f) { ctx.library_abort(f.what(), desc); ctx.violation("peel_failed", {}, desc, f.what().substr(0, 300)); return; }   // every connected simple graph is a valid input: not returning a decomposition is a violation of this property too (in the C15 replay the verdict is muted and the abort itself is the violation)
     if (!why.empty()) ctx.violation("peel_partition", {}, desc, why);
 }
 static void check_comps(int n, const EL &es) {
